@@ -1,9 +1,177 @@
 (* C19 — Block addressing and checksum accounting are exact and complete.
-   Property theorems only; proofs live in C19/*Proofs.v. *)
+   Property theorems only; proofs live in C19/*Proofs.v.
+   Models: C19/BlockrangeModel.v, SegmentModel.v, ChecksumModel.v (+ StrModel.v for the Go library
+   string functions); specification: C19/Spec.v. *)
 Require Import PG.Base.Bytes PG.Base.GoSlice.
 Require Import PG.C19.StrModel PG.C19.BlockrangeModel PG.C19.SegmentModel PG.C19.ChecksumModel PG.C19.Spec.
-Require Import PG.C19.SegmentProofs.
+Require Import PG.C19.GrammarProofs PG.C19.ReadProofs PG.C19.LabelsProofs PG.C19.ChecksumProofs PG.C19.SegmentProofs.
 
+(* ================= the block-range syntax: exactly  a | a:b | a: | :b  with 0 <= a <= b ================= *)
+(* For ALL byte strings: a string is accepted with the pair (lo, hi) iff it is in the grammar and
+   denotes that pair (an absent side is -1; numbers are digit strings whose value fits Go's int). *)
+Theorem C19_grammar : forall s lo hi, ParseBlockRange s = PBRRange lo hi <-> denotes s lo hi.
+Proof. exact parse_block_range_grammar. Qed.
+Print Assumptions C19_grammar.
+
+(* the three outcomes, for ALL strings: "" is "no range"; grammar strings are accepted; everything else is an error *)
+Theorem C19_grammar_classify : forall s,
+  (s = [] -> ParseBlockRange s = PBRNone) /\
+  (s <> [] -> in_grammar s -> exists lo hi, denotes s lo hi /\ ParseBlockRange s = PBRRange lo hi) /\
+  (s <> [] -> ~ in_grammar s -> ParseBlockRange s = PBRErr).
+Proof. exact parse_block_range_classify. Qed.
+Print Assumptions C19_grammar_classify.
+Example C19_grammar_ex : denotes [x37; x3a; x31; x32] 7 12.     (* "7:12" *)
+Proof. apply C19_grammar. vm_compute. reflexivity. Qed.
+
+(* historic (before the fix: commit for D59): ":" , "+5", "-0", "1:+2" were accepted *)
+Theorem C19_colon_refuted : Historic_ParseBlockRange colon = PBRRange (-1) (-1) /\ ~ in_grammar colon.
+Proof. exact historic_colon_refuted. Qed.
+Print Assumptions C19_colon_refuted.
+Theorem C19_sign_refuted :
+  Historic_ParseBlockRange [x2b; x35] = PBRRange 5 5 /\ ~ in_grammar [x2b; x35] /\
+  Historic_ParseBlockRange [x2d; x30] = PBRRange 0 0 /\ ~ in_grammar [x2d; x30] /\
+  Historic_ParseBlockRange [x31; x3a; x2b; x32] = PBRRange 1 2 /\ ~ in_grammar [x31; x3a; x2b; x32].
+Proof. exact historic_sign_refuted. Qed.
+Print Assumptions C19_sign_refuted.
+
+(* ================= block-range reads: exactly the requested blocks ================= *)
+(* For every file content d (any size, any partial tail) and every request: the result is the
+   concatenation of blocks lo..hi of d ([requested]: start defaults to 0, end to the last block, an end
+   beyond the file is clamped, a partial tail is never returned); the request is rejected iff the
+   start is beyond the last block (always so on a file without a complete block) or after the end. *)
+Theorem C19_read : forall d br,
+  ReadBlockRange (Some d) br =
+  Ok (match expected_read d br with
+      | Some b => inr (exact b)
+      | None => inl (if br_start br 0 >=? nblocks d then EBeyond else EInvalid)
+      end).
+Proof. exact read_block_range_spec. Qed.
+Print Assumptions C19_read.
+Theorem C19_read_blocks : forall d br lo hi,
+  requested (nblocks d) br = Some (lo, hi) ->
+  0 <= lo <= hi /\ hi < nblocks d /\
+  ReadBlockRange (Some d) br = Ok (inr (exact (blocks_of d (between lo hi)))) /\
+  blen (blocks_of d (between lo hi)) = BLCKSZ * (hi - lo + 1).
+Proof.
+  intros d br lo hi H. pose proof (requested_bounds _ _ _ _ H).
+  repeat split; try lia; [apply read_block_range_ok, H|apply read_len with (br := br), H].
+Qed.
+Print Assumptions C19_read_blocks.
+
+(* ================= labels and header fields ================= *)
+(* ParseBlockInfo, for ALL byte strings and tails: nil below one page, otherwise the little-endian
+   values stored at the header offsets of the first 8192 bytes ([block_summary]) *)
+Theorem C19_block_info_any : forall s n,
+  (len s < PageSize -> ParseBlockInfo s n = Ok None) /\
+  (PageSize <= len s -> ParseBlockInfo s n = Ok (Some (block_summary (vis s) n))).
+Proof. intros; split; [apply parse_block_info_short|apply parse_block_info_any]. Qed.
+Print Assumptions C19_block_info_any.
+
+(* every header field of a written page is reported as stored: LSN as (xlogid, xrecoff), checksum,
+   flags, lower, upper, special, page size and version, item count (lower-24)/4, free space
+   upper-lower; a page of zeros is reported empty *)
+Theorem C19_block_info_fields : forall b extra t n,
+  wf_block b -> ParseBlockInfo {| vis := enc_block b ++ extra; tail := t |} n = Ok (Some (expected_info b n)).
+Proof.
+  intros b extra t n W. rewrite parse_block_info_any.
+  - cbn [vis]. rewrite block_summary_enc by exact W. reflexivity.
+  - unfold len. cbn [vis]. rewrite blen_app, (enc_block_len b W). pose proof (blen_nonneg extra).
+    unfold PageSize, BLCKSZ. lia.
+Qed.
+Print Assumptions C19_block_info_fields.
+
+(* DumpBlockRange on a file written block by block (any partial tail): the i-th entry is the summary
+   of block lo+i, labelled lo+i, for exactly the requested blocks *)
+Theorem C19_labels : forall bs p br lo hi,
+  Forall wf_block bs -> 0 <= blen p < BLCKSZ -> Z.of_nat (length bs) <= 2 ^ 32 ->
+  requested (Z.of_nat (length bs)) br = Some (lo, hi) ->
+  DumpBlockRange (Some (enc_file bs p)) br = Ok (inr (expected_infos bs lo hi)).
+Proof. exact dump_enc_file. Qed.
+Print Assumptions C19_labels.
+(* ... and on ANY file content *)
+Theorem C19_labels_any : forall d br,
+  (forall lo hi, requested (nblocks d) br = Some (lo, hi) -> hi < 2 ^ 32 ->
+     DumpBlockRange (Some d) br = Ok (inr (map (fun n => block_summary (block n d) n) (between lo hi)))) /\
+  (requested (nblocks d) br = None ->
+     DumpBlockRange (Some d) br = Ok (inl (if br_start br 0 >=? nblocks d then EBeyond else EInvalid))).
+Proof. intros; split; [intros; apply dump_block_range_ok; assumption|apply dump_block_range_rejected]. Qed.
+Print Assumptions C19_labels_any.
+
+(* hex dumps, for every hex.Dump: entry i is block lo+i, numbered lo+i, at byte offset 8192 (lo+i), size 8192 *)
+Theorem C19_hexdump_labels : forall (hexDump : bytes -> bytes) d br,
+  (forall lo hi, requested (nblocks d) br = Some (lo, hi) -> hi < 2 ^ 32 ->
+     DumpBinaryRange hexDump (Some d) br = Ok (inr (map (expected_bindump hexDump d) (between lo hi)))) /\
+  (requested (nblocks d) br = None ->
+     DumpBinaryRange hexDump (Some d) br = Ok (inl (if br_start br 0 >=? nblocks d then EBeyond else EInvalid))).
+Proof. intros; split; [intros; apply dump_binary_range_ok; assumption|apply dump_binary_range_rejected]. Qed.
+Print Assumptions C19_hexdump_labels.
+Theorem C19_hexdump_block : forall (hexDump : bytes -> bytes) d n,
+  DumpBinaryBlock hexDump (Some d) n =
+  Ok (if n <? 0 then inl ENegative
+      else if n <? nblocks d then inr {| bd_num := n mod 2 ^ 32; bd_off := BLCKSZ * n; bd_hex := hexDump (block n d); bd_size := BLCKSZ |}
+      else inl EBeyond).
+Proof. exact dump_binary_block_spec. Qed.
+Print Assumptions C19_hexdump_block.
+
+(* tallies: total, first and last number, empty/used counts, item and free-space sums, fill ratio *)
+Theorem C19_stats : forall d br,
+  (forall lo hi, requested (nblocks d) br = Some (lo, hi) -> hi < 2 ^ 32 ->
+     GetBlockRangeStats (Some d) br =
+     Ok (inr (expected_stats (map (fun n => block_summary (block n d) n) (between lo hi)) lo hi))) /\
+  (requested (nblocks d) br = None ->
+     GetBlockRangeStats (Some d) br = Ok (inl (if br_start br 0 >=? nblocks d then EBeyond else EInvalid))).
+Proof. intros; split; [intros; apply stats_ok; assumption|apply stats_rejected]. Qed.
+Print Assumptions C19_stats.
+
+(* ================= checksum accounting ================= *)
+(* VerifyFileChecksums, for ALL byte strings, tails and segment numbers: total = number of complete
+   blocks; every block is judged exactly once by [block_verdict] on its own bytes and its relation-wide
+   number (segment * 131072 + n, as a uint32); zero blocks count as valid; exactly the invalid blocks
+   are listed, in order, with their number, stored and computed checksum and LSN.
+   [cpc] is the tool's own checksum function (O3: not claimed to be PostgreSQL's). *)
+Theorem C19_checksums : forall data seg,
+  VerifyFileChecksums data seg = Ok (expected_file_result cpc (vis data) seg).
+Proof. exact verify_file_spec. Qed.
+Print Assumptions C19_checksums.
+
+Theorem C19_checksums_complete : forall f seg,
+  let r := expected_file_result cpc f seg in
+  map fst (file_verdicts cpc f seg) = zrange 0 (Z.to_nat (nblocks f)) /\
+  fr_total r = nblocks f /\ fr_valid r + fr_invalid r = fr_total r /\ 0 <= fr_zero r <= fr_valid r /\
+  Z.of_nat (length (fr_errors r)) = fr_invalid r /\
+  map cr_num (fr_errors r) =
+    map (fun nv => rel_number seg (fst nv)) (filter (fun nv => is_invalid (snd nv)) (file_verdicts cpc f seg)).
+Proof.
+  intros f seg. cbv zeta. split; [apply file_verdicts_blocks|].
+  destruct (accounting_totals cpc f seg) as (A & B & C & D). cbv zeta in *.
+  repeat split; try assumption; try apply C. apply errors_exact.
+Qed.
+Print Assumptions C19_checksums_complete.
+
+(* verdict locality: the verdict for block n depends only on that block's bytes and its number *)
+Theorem C19_verdict_local : forall f f' seg n,
+  0 <= n < nblocks f -> 0 <= n < nblocks f' -> block n f = block n f' ->
+  forall v, In (n, v) (file_verdicts cpc f seg) <-> In (n, v) (file_verdicts cpc f' seg).
+Proof.
+  intros f f' seg n H H' E v. rewrite !file_verdicts_local, E. tauto.
+Qed.
+Print Assumptions C19_verdict_local.
+
+(* a single page, for ALL byte strings *)
+Theorem C19_verify_page_any : forall s num,
+  (len s < PageSize -> VerifyPageChecksum s num = Ok (blank_result num false)) /\
+  (PageSize <= len s -> VerifyPageChecksum s num = Ok (page_result (vis s) num)).
+Proof. intros; split; [apply verify_page_short|apply verify_page_any]. Qed.
+Print Assumptions C19_verify_page_any.
+
+(* the computation works on a copy with the checksum field zeroed: bytes 8..9 do not influence it *)
+Theorem C19_checksum_field_independent : forall p p' num,
+  PageSize <= blen p -> blen p' = blen p -> sub p' 0 8 = sub p 0 8 -> sub p' 10 (blen p') = sub p 10 (blen p) ->
+  cpc p' num = cpc p num.
+Proof. exact checksum_field_independent. Qed.
+Print Assumptions C19_checksum_field_independent.
+
+(* ================= segments ================= *)
 (* relation-wide block g lives in segment g / bps at local block g mod bps, for every segment size of
    at least one block; the pair recomposes to g. *)
 Theorem C19_segments_global : forall g sz,
@@ -13,3 +181,14 @@ Theorem C19_segments_global : forall g sz,
   0 <= snd (seg_of g (sz / BLCKSZ)) < sz / BLCKSZ.
 Proof. exact g2s_spec. Qed.
 Print Assumptions C19_segments_global.
+
+(* ================= no panic (C10 share) ================= *)
+Theorem C19_no_panic : forall f br s n g sz data seg,
+  ReadBlockRange f br <> Panic /\ DumpBlockRange f br <> Panic /\ ParseBlockInfo s n <> Panic /\
+  GlobalBlockToSegment g sz <> Panic /\ VerifyPageChecksum s n <> Panic /\ VerifyFileChecksums data seg <> Panic.
+Proof.
+  intros. repeat split.
+  - apply read_no_panic. - apply dump_block_range_no_panic. - apply parse_block_info_no_panic.
+  - apply g2s_no_panic. - apply verify_page_no_panic. - apply verify_file_no_panic.
+Qed.
+Print Assumptions C19_no_panic.
